@@ -1304,6 +1304,12 @@ func keyInjective(c *core.Check, rule string) {
 	c.Rule(rule, "INJECTIVE: the extracted encoder is a uniquely decodable code (Sardinas–Patterson), hence distinct tuples get distinct keys for every arity; otherwise a colliding pair of same-arity tuples is exhibited")
 	terms, why := extractEncoder(f)
 	if why != "" {
+		// the one-pass, byte-by-byte spelling of the same encoder family
+		if t2, ok := extractByteEscape(f); ok {
+			terms, why = t2, ""
+		}
+	}
+	if why != "" {
 		// not a uniform per-element term: search for a collision with the interpreter over the function body
 		if msg, status := collisionSearch(f, nil); status == "collision" {
 			c.Fail(rule, buildKey+"|uniquely decodable", pos(c, f.Decl), "the key encoder is not injective: label tuples "+msg+" — they address the same datum; creating, finding, expiring or deleting one touches the other")
